@@ -223,6 +223,16 @@ func (r *runner) apply(op Op) (err error) {
 	K := key(k)
 	switch op.Op {
 	case "setf":
+		if op.Val == 0 {
+			// restore what the last commit holds (written as a new object, as a controller that builds its record
+			// afresh would); a key the commit does not hold gets a value of its own
+			if cv, ok := m.vers[len(m.vers)-1][k]; ok {
+				op.Val = cv
+				r.probes.Hit("set-back-to-committed")
+			} else {
+				op.Val = 1_000_000 + uint64(r.step)
+			}
+		}
 		_ = r.L.SetFinality(&item{K: K, V: op.Val})
 		if r.twin != nil {
 			_ = r.twin.SetFinality(&item{K: K, V: op.Val})
@@ -525,6 +535,9 @@ func generate(rng *core.Rand, tier string) *ltrace {
 		case 0:
 			val++
 			op = Op{Op: "setf", Key: k, Val: val}
+			if pend[k] == "set" && rng.Chance(0.2) {
+				op.Val = 0 // back to the value the last commit holds for this key (a net "no change")
+			}
 			pend[k] = "set"
 		case 1:
 			op = Op{Op: "getf", Key: k}
